@@ -177,6 +177,15 @@ def rule_chunk(run):
               't2incon.read :: trailing blanks of the last line trimmed', 'idiom not recognised', where=rd.where())
 
 
+def rule_nonetest(run):
+    run.rule('NONETEST', 'real-valued fields read from a record are tested for absence with `is None`, never by truthiness '
+             '(0.0 is a legal value)', floor=1)
+    from .io_common import nonetest_rule
+    prog = run.prog
+    tab = load_table(prog, 't2incons', 't2incon_format_specification')
+    nonetest_rule(run, prog.func(C + 'read'), [tab])
+
+
 def rule_pair(run):
     pair_rule(run, ['t2incons'], set(['t2incon']), floor=4)
 
@@ -186,4 +195,5 @@ def check(run):
     run.guarded('RECSEQ', rule_recseq_term)
     run.guarded('FMAP', rule_fmap)
     run.guarded('CHUNK', rule_chunk)
+    run.guarded('NONETEST', rule_nonetest)
     run.guarded('PAIR', rule_pair)
